@@ -67,7 +67,7 @@ class Cfg:
 
     def __init__(self, N=3, T=3, dims=(), scale=(), use_scale=True, reg_cust=False,
                  per_axis_pos=False, name="struct", enable=(), rebuild=None, embed=None, max_stroke=0, node_shift=0,
-                 seg_dtype="uint16", formats=None, custom_keys=False, warm=False):
+                 seg_dtype="uint16", formats=None, custom_keys=False, warm=False, seg_view=False, disable=()):
         self.N, self.T = N, T
         self.dims = tuple(dims)
         self.scale = tuple(scale) if scale else tuple(1 for _ in dims)
@@ -93,6 +93,8 @@ class Cfg:
         # warm: before a path is replayed, every node id is used once in ANOTHER frame (linked, queried) and deleted
         # again - whatever the object remembers per node id, track id or frame is then stale
         self.warm = warm
+        self.seg_view = seg_view        # the label array is a non-contiguous VIEW of a wider array
+        self.disable = list(disable)    # model feature names disabled right after construction
         self.P = int(np.prod(self.dims)) if self.dims else 0
 
     @property
@@ -105,7 +107,8 @@ class Cfg:
                 "per_axis_pos": self.per_axis_pos, "name": self.name, "enable": self.enable,
                 "rebuild": self.rebuild, "embed": self.embed, "max_stroke": self.max_stroke, "node_shift": self.node_shift,
                 "seg_dtype": self.seg_dtype, "formats": self.formats,
-                "custom_keys": self.custom_keys, "warm": self.warm}
+                "custom_keys": self.custom_keys, "warm": self.warm,
+                "seg_view": self.seg_view, "disable": self.disable}
 
     @staticmethod
     def from_json(d):
@@ -134,6 +137,11 @@ class Driver:
                 elif cfg.embed:
                     shape = (*shape[:-1], cfg.embed[0])
                 seg = np.zeros(shape, dtype=np.dtype(cfg.seg_dtype))
+                if cfg.seg_view:
+                    # a cropped view of a wider array: legal, writable, not C-contiguous
+                    wide = np.zeros((*shape[:-1], shape[-1] + 4), dtype=np.dtype(cfg.seg_dtype))
+                    seg = wide[..., 2:2 + shape[-1]]
+                    assert not seg.flags["C_CONTIGUOUS"] or shape[-1] == 1
             scale = [1, *cfg.scale] if cfg.use_scale else None
             self.tracks = SolutionTracks(g, segmentation=seg, scale=scale)
         else:
@@ -153,6 +161,8 @@ class Driver:
                 "display_name": "edge custom", "required": False, "default_value": None}
         if cfg.enable:
             self.tracks.enable_features([FEAT[k] for k in cfg.enable])
+        if cfg.disable:
+            self.tracks.disable_features([real_key(self.tracks, k) for k in cfg.disable])
         self.emits = []
         self.tracks.refresh.connect(self._on_refresh)
 
@@ -184,6 +194,12 @@ class Driver:
                 b[ECUSTOM_KEY] = (u + v) % 2        # 0 is falsy but not None
             g.add_edge(u - nshift, v - nshift, **b)
         seg = None if tr.segmentation is None else np.array(tr.segmentation, copy=True)
+        if rb.get("orphan") and seg is not None:
+            # a label that belongs to no node (an unselected detection): the first background pixel gets label 77
+            flat = seg.reshape(-1)
+            zeros = np.flatnonzero(flat == 0)
+            if len(zeros):
+                flat[zeros[0]] = 77
         return Driver(self.cfg, graph=g, seg=seg, shift=shift, ecust=bool(rb.get("ecust")), nshift=nshift)
 
     def warm_up(self):
@@ -365,9 +381,14 @@ class Driver:
             elif k == K_SWAP:
                 UserSwapPredecessors(tr, (c[1], c[2]))
             elif k == K_SETATTR:
-                key = {1: CUSTOM_KEY, 2: tr.features.time_key, 3: tr.features.tracklet_key,
+                key = {1: CUSTOM_KEY, 2: tr.features.time_key, 3: tr.features.tracklet_key, 9: None, 10: None,
                        4: tr.features.lineage_key, 5: real_key(tr, "pos"), 6: "area", 7: "iou",
                        8: "circularity"}[c[2]]
+                if c[2] in (9, 10):
+                    # two keys in one call, the custom attribute and the (protected) time, in either order
+                    pair = [(CUSTOM_KEY, c[3] - 1), (tr.features.time_key, c[3] - 1)]
+                    UserUpdateNodeAttrs(tr, c[1], dict(pair if c[2] == 9 else pair[::-1]))
+                    return True, "ok", list(self.emits), ret
                 # model value v is stored as v - 1, so that the falsy value 0 occurs
                 val = c[3] - 1 if c[2] != 5 else [float(c[3]), float(c[3])]
                 UserUpdateNodeAttrs(tr, c[1], {key: val})
@@ -690,7 +711,7 @@ def alphabet(drv: Driver, kinds=None, wide=True):
     if K_SWAP in kinds:
         out += [[K_SWAP, a, b, 0, 0] for a in nodes for b in nodes]
     if K_SETATTR in kinds:
-        keys = (1, 2, 3, 4, 5, 6, 7, 8) if cfg.has_seg else (1, 2, 3, 4)
+        keys = (1, 2, 3, 4, 5, 6, 7, 8, 9, 10) if cfg.has_seg else (1, 2, 3, 4, 9, 10)
         out += [[K_SETATTR, n, k, 1, 0] for n in nodes for k in keys]
     if KP_ADDNODE in kinds:
         maxL = int(tr.track_annotator.max_lineage_id) + drv.shift
